@@ -44,6 +44,17 @@ def _sh(cmd, cwd=None, timeout=3600, env=None):
     return p.returncode, p.stdout + p.stderr
 
 
+def _load_findings() -> dict:
+    """known_findings.json is the committed list; known_findings.d/*.json are its per-property sources"""
+    d = ROOT / "known_findings.d"
+    if d.is_dir() and any(d.glob("*.json")):
+        out = []
+        for f in sorted(d.glob("*.json")):
+            out += json.loads(f.read_text())
+        return {"findings": out}
+    return json.loads((ROOT / "known_findings.json").read_text())
+
+
 class LakeLock:
     def __enter__(self):
         WORK.mkdir(exist_ok=True)
@@ -93,7 +104,7 @@ class Ctx:
         self.axioms: dict[str, list[str]] = {}
         self.checker_cmd = ""
         self.driver_ok = True
-        kf = json.loads((ROOT / "known_findings.json").read_text())
+        kf = _load_findings()
         self.known = {e["id"]: e for e in kf["findings"] if e["property"] == prop and e.get("status") == "known"}
         self.fixed = {e["id"]: e for e in kf["findings"] if e["property"] == prop and e.get("status") == "fixed"}
         WORK.mkdir(exist_ok=True)
